@@ -4,6 +4,8 @@ import "verif/harness/internal/core"
 
 var registry = map[string]func() core.Engine{
 	"C01": func() core.Engine { return &C01{} },
+	"C02": func() core.Engine { return &C02{} },
+	"C14": func() core.Engine { return &C14{} },
 }
 
 // Lookup returns a fresh engine for the property id, or nil.
